@@ -130,7 +130,7 @@ func (g *gen) fresh(p string) string { g.nvar++; return fmt.Sprintf("%s%d", p, g
 func (g *gen) ie(d int) string { // int expression
 	if d <= 0 {
 		return g.pick("a", "r", "7", "0x1F", "1_000", "len(xs)", "t.a", "g.a", "t.e.x", "cap(xs)", "0b101", "0o17", "int(Last)",
-			"0X1F", "0B101", "0O17", "0X_1f", "0b_1", "0O_7", "0XA_B", "017", "0_17", "0xDEAD_beef", "m2[K{1, 2}]", "'a'*0 + 1", "'\x41' - '\u0041' + 2")
+			"0X1F", "0B101", "0O17", "0X_1f", "0b_1", "0O_7", "0XA_B", "017", "0_17", "0xBE_ef", "m2[K{1, 2}]", "int('a'*0 + 1)", "int('\x41' - '\u0041' + 2)")
 	}
 	switch g.r.Intn(26) {
 	case 0:
@@ -219,7 +219,7 @@ func (g *gen) fe(d int) string {
 
 func (g *gen) se(d int) string {
 	if d <= 0 {
-		return g.pick("b", `"lit"`, "`raw`", `"a\tb\n"`, `"é\u00e9\x41"`, `""`, `"\101\U0001F600\xff\a\v"`, "`a\\n\`", `"\""`, `"'"`)
+		return g.pick("b", `"lit"`, "`raw`", `"a\tb\n"`, `"é\u00e9\x41"`, `""`, `"\101\U0001F600\xff\a\v"`, "`a\\n`", `"\""`, `"'"`)
 	}
 	switch g.r.Intn(6) {
 	case 0:
